@@ -170,6 +170,7 @@ func C18(ctx *core.Ctx, r *core.Report) {
 	c17KeyMatchConjunction(ctx, r)
 	c18GrowByAppendOnly(ctx, r)
 	c18HandlerFollowsContainer(ctx, r)
+	c18MapHandlerIndexDropped(ctx, r)
 	c18LookupBeforeCreate(ctx, r)
 }
 
